@@ -2,7 +2,7 @@
 import re
 from . import common, projgen, projcheck, projrun, ninjaparse
 
-PROF = projgen.profile(p_rule_text_newline=0.05, n_builders=(2, 4), n_apps=(2, 3), p_rules_override=0.5, p_same_override=0.5, p_always=0.3, p_nonshare=0.25,
+PROF = projgen.profile(p_rule_text_newline=0.05, p_same_source_two_spellings=0.08, n_builders=(2, 4), n_apps=(2, 3), p_rules_override=0.5, p_same_override=0.5, p_always=0.3, p_nonshare=0.25,
                        p_custom_build=0.15, p_download=0.12, p_build_dep=0.25, p_global_build_dep=0.1, p_subdir=0.4,
                        p_tasks=0.05, p_nobindir=0.06, p_cli_builders=0.2, p_cli_apps=0.2)
 OBS = ("status", "decision", "loaded", "ninja")
@@ -30,6 +30,7 @@ def check_file(chk, p, r, pn):
                 chk.fail_oracle("graph:rule-after-use", f"rule {b['rule']} is defined after its first use", {"project": p})
                 return
         for o in b["outs"]:
+            o = ninjaparse.canon(o)           # ninja compares canonical paths: `objects/./x.o` and `objects/x.o` are one output
             if o in prod:
                 a = prod[o]
                 # what differs between the two statements tells the findings apart
@@ -49,7 +50,7 @@ def check_file(chk, p, r, pn):
                 return
             prod[o] = b
     for b in projcheck.built(r):
-        if b["outfile"] not in prod:
+        if ninjaparse.canon(b["outfile"]) not in prod:
             chk.fail_oracle("graph:outfile-not-a-target", f"{b['builder']}/{b['app']}: {b['outfile']} is not produced by any statement", {"project": p})
             return
     # paths chosen by laze lie under the build directory. A downloaded module with an explicit `srcdir:` is downloaded where the USER
